@@ -42,9 +42,12 @@ class C06(Prop):
     level_text = ("Coq theorems: for every well-formed document (Grammar.wf_doc) the lossy reader accepts render d and returns exactly "
                   "lossy_content d (per field: first line, LF, continuation lines joined by LF), whose non-blank value lines, names and paragraph "
                   "structure equal those of the lossless reader's content d (joint acceptance + agreement on all well-formed documents); the lossy "
-                  "reader is total (no panic, fuel suffices) on every input. PARTIAL: agreement on texts outside the grammar that both readers happen "
-                  "to accept (C06_full) is not proved in Coq; it is decided on every run by the lossy-parse stream (every string up to length 5/6 over "
-                  "the lexer's character classes, generated and mutated documents) with the agreement oracle evaluated on the implementation.")
+                  "reader is total (no panic, fuel suffices) on every input. The full statement is proved too (C06_lossy_implies_lossless, C06_full): "
+                  "for EVERY text, well-formed or not, if the lossy reader accepts it then the lossless reader accepts it without a syntax error and "
+                  "the two report the same paragraphs, names and non-blank value lines (via an automaton over token kinds that every lexer output "
+                  "satisfies, LexInvP.v, and a step-by-step simulation of the two readers, AgreeP.v). The lossy-parse stream (every string up to "
+                  "length 5/6 over the lexer's character classes, generated and mutated documents) ties both models to the code and evaluates the "
+                  "agreement oracle on the implementation.")
     level_note = "Model: src/lossy.rs (FromStr for Deb822/Paragraph), src/lex.rs, fn parse of src/lossless.rs; Grammar.v as the definition of well-formed."
     rule = ("lossy-parse: the C01 case set (corpus, exhaustive-small over class alphabet, generated + mutated docs); lossy-wf: rendered random "
             "Grammar.doc inhabitants; non-trivial = both readers accept and at least one field")
